@@ -128,6 +128,11 @@ func newTarget(coll bool, w *fieldmaskpb.FieldMask, stored proto.Message) target
 	var opts []resource.Option
 	if w != nil {
 		opts = append(opts, resource.WithWritableFields(w))
+	} else if coll {
+		// "nil W meaning every field", said out loud and after a narrower option: the later option counts
+		opts = append(opts, resource.WithWritablePaths(&lib.T{}, "default_string"), resource.WithWritableFields(nil))
+	} else if stored != nil {
+		opts = append(opts, resource.WithWritableFields(nil)) // (the same as leaving the option out, which the never-written Value below does)
 	}
 	if coll {
 		return target{xm: map[string]*fieldmaskpb.FieldMask{}, c: resource.NewCollection(append(opts, resource.WithInitialRecord("id", stored), resource.WithInitialRecord("other", proto.Clone(stored)))...)}
